@@ -67,12 +67,37 @@ def check_packets(fmt, pk, acc, w):
                 acc.violation("yd-line-termination", f"{w['definition']}: packet is not exactly one CR LF terminated line", dict(w, packet=repr(p)))
 
 
-def decode_packets(fmt, pk, dec=None):
+CHATTER_NO = [0]
+
+
+def _chatter(dec, fmt, src, dst):
+    """Between two packets of a message other devices announce themselves (address claims are ordinary bus traffic): first
+    claims and take-overs by another NAME, from the destination of the transfer and from addresses that resemble its source
+    or destination - never from the source itself."""
+    from .. import hist
+    CHATTER_NO[0] += 1
+    for a_ in ([dst] if dst < 254 and dst != src else []) + hist.related_addresses(src, dst)[:3]:
+        name = hist.claim_name(7000 + CHATTER_NO[0], 1851 if CHATTER_NO[0] % 2 else 229).to_bytes(8, "little")
+        ident = wire.can_id(6, 60928, a_, 255)
+        try:
+            if fmt == "ebyte":
+                dec.decode_tcp(wire.ebyte_frame(ident, name))
+            elif fmt == "usb":
+                dec.decode_usb(wire.usb_frame(ident, name))
+            else:
+                dec.decode_yacht_devices_string(wire.yd_line(ident, name).strip())
+        except Exception:  # noqa: BLE001
+            pass
+
+
+def decode_packets(fmt, pk, dec=None, chatter=None):
     dec = dec or NMEA2000Decoder()
     r = None
     if fmt == "actisense":
         return dec.decode_actisense_string("A000000.000 " + pk)
     for k, p in enumerate(pk):
+        if chatter is not None and k > 0:
+            _chatter(dec, fmt, *chatter)
         if fmt == "ebyte":
             r = dec.decode_tcp(p)
         elif fmt == "usb":
@@ -228,6 +253,17 @@ def one_case(dbx, rng, src_dec, long_lived, d, c, acc, label):
                     elif r2 is None or (r2.source, r2.priority) != (m2.source, m2.priority):
                         acc.violation("format-roundtrip-header-differ", f"{d.id} {fmt}: the same payload from source {m2.source} priority {m2.priority} came back as "
                                       f"{None if r2 is None else (r2.source, r2.priority)}", w)
+                # the same packets on a decoder that hears other devices claim and re-claim addresses between them (the
+                # destination of the transfer among them)
+                if fmt != "actisense" and len(pk) > 1 and r is not None:
+                    try:
+                        r_ch = decode_packets(fmt, pk, long_lived.setdefault("between-claims-" + fmt, NMEA2000Decoder()), chatter=(src, dst if pdu1 else 255))
+                    except Exception:  # noqa: BLE001
+                        r_ch = None
+                    acc.count("multi_packet_messages_decoded_between_address_claims")
+                    if r_ch is None or project.msg_proj(r_ch, with_iso=False) != project.msg_proj(r, with_iso=False):
+                        acc.violation("own-packets-lost-between-address-claims", f"{d.id} {fmt}: with address claims of other devices (destination {dst} among them) between the "
+                                      f"packets the message comes back as {None if r_ch is None else (r_ch.id, r_ch.source, r_ch.destination)}", w)
                 # two transfers of this (addressed, multi-packet) message from ONE source to TWO destinations, packet by packet
                 # in turn: each must arrive with its own addressing
                 if pdu1 and len(pk) > 1 and fmt != "actisense" and r is not None:
